@@ -188,6 +188,8 @@ func (r *readableSet[ElementType]) OnUpdate(callback func(appliedMutations ds.Se
 
 	r.mutex.Unlock()
 
+	verifOnUpdateWindow()
+
 	if !mutations.IsEmpty() || lo.First(triggerWithInitialZeroValue) {
 		createdCallback.Invoke(mutations)
 	}
